@@ -1,0 +1,131 @@
+//go:build verif
+
+// Contracts for package primitive, read by /verif's govc (see /verif/DESIGN.md). Comment-only.
+package primitive
+
+// ---- C19: declared constants and validity checks agree; capability tables match the specifications ----------
+
+// declared(x) holds when x equals one of the constants of x's type declared in this package (enumerated from the
+// source by go/types on every run, so a constant added later is included automatically).
+
+//@ funcs ^\((OpCode|ResultType|ErrorCode|ConsistencyLevel|WriteType|DataTypeCode|EventType|SchemaChangeType|SchemaChangeTarget|TopologyChangeType|StatusChangeType|BatchType|BatchChildType|DseRevisionType|FailureCode|Compression)\)\.IsValid$
+//@   prop C19
+//@   ensures closed: result == declared(self)
+
+//@ func (ProtocolVersion).IsSupported
+//@   prop C19
+//@   unroll #0 6
+//@   ensures closed: result == declared(self)
+
+// Every declared constant prints with a specific name: String() returns one of its literal strings, never the
+// formatted "? [..]" fall-back.
+
+//@ funcs ^\((ProtocolVersion|OpCode|ResultType|ErrorCode|ConsistencyLevel|DataTypeCode|BatchType|BatchChildType|DseRevisionType|FailureCode)\)\.String$
+//@   prop C19
+//@   ensures named: declared(self) ==> isliteral(result)
+
+// Each opcode is exactly one of request or response.
+
+//@ func (OpCode).IsRequest
+//@   prop C19
+//@   ensures direction: declared(self) ==> result == !self.IsResponse()
+//@   ensures undeclared: !declared(self) ==> !result
+
+//@ func (OpCode).IsResponse
+//@   prop C19
+//@   ensures direction: declared(self) ==> result == !self.IsRequest()
+//@   ensures undeclared: !declared(self) ==> !result
+
+// The Check* helpers return nil exactly for declared values.
+
+//@ funcs ^CheckValid(OpCode|ConsistencyLevel|EventType|WriteType|BatchType|SchemaChangeType|StatusChangeType|ResultType|FailureCode)$
+//@   prop C19
+//@   ensures iff: (result == nil) == declared(arg0)
+
+//@ func CheckSupportedProtocolVersion
+//@   prop C19
+//@   ensures iff: (result == nil) == declared(version)
+
+// Capability predicates against the feature tables of specs/native_protocol_v2..v5.spec and dse_protocol_v1..v2.spec
+// (for undeclared version numbers only totality is required).
+
+//@ func (ProtocolVersion).Uses4BytesCollectionLength
+//@   prop C19
+//@   ensures table: declared(self) ==> result == (self != ProtocolVersion2)
+
+//@ func (ProtocolVersion).Uses4BytesQueryFlags
+//@   prop C19
+//@   ensures table: declared(self) ==> result == (self == ProtocolVersion5 || self == ProtocolVersionDse1 || self == ProtocolVersionDse2)
+
+//@ func (ProtocolVersion).SupportsBatchQueryFlags
+//@   prop C19
+//@   ensures table: declared(self) ==> result == (self != ProtocolVersion2)
+
+//@ func (ProtocolVersion).SupportsPrepareFlags
+//@   prop C19
+//@   ensures table: declared(self) ==> result == (self == ProtocolVersion5 || self == ProtocolVersionDse2)
+
+//@ func (ProtocolVersion).SupportsResultMetadataId
+//@   prop C19
+//@   ensures table: declared(self) ==> result == (self == ProtocolVersion5 || self == ProtocolVersionDse2)
+
+//@ func (ProtocolVersion).SupportsReadWriteFailureReasonMap
+//@   prop C19
+//@   ensures table: declared(self) ==> result == (self == ProtocolVersion5 || self == ProtocolVersionDse1 || self == ProtocolVersionDse2)
+
+//@ func (ProtocolVersion).SupportsWriteTimeoutContentions
+//@   prop C19
+//@   ensures table: declared(self) ==> result == (self == ProtocolVersion5)
+
+//@ func (ProtocolVersion).SupportsModernFramingLayout
+//@   prop C19
+//@   ensures table: declared(self) ==> result == (self == ProtocolVersion5)
+
+//@ func (ProtocolVersion).SupportsUnsetValues
+//@   prop C19
+//@   ensures table: declared(self) ==> result == (self != ProtocolVersion2 && self != ProtocolVersion3)
+
+//@ func (ProtocolVersion).FrameHeaderLengthInBytes
+//@   prop C19
+//@   ensures table: declared(self) ==> result == ite(self == ProtocolVersion2, 8, 9)
+
+//@ func (ProtocolVersion).SupportsQueryFlag
+//@   prop C19
+//@   ensures keyspace: declared(self) && flag == QueryFlagWithKeyspace ==> result == (self == ProtocolVersion5 || self == ProtocolVersionDse2)
+//@   ensures now: declared(self) && flag == QueryFlagNowInSeconds ==> result == (self == ProtocolVersion5)
+//@   ensures timestamp: declared(self) && (flag == QueryFlagDefaultTimestamp || flag == QueryFlagValueNames) ==> result == (self != ProtocolVersion2)
+//@   ensures base: declared(self) && (flag == QueryFlagValues || flag == QueryFlagSkipMetadata || flag == QueryFlagPageSize || flag == QueryFlagPagingState || flag == QueryFlagSerialConsistency) ==> result
+//@   ensures dse: declared(self) && (flag == QueryFlagDsePageSizeBytes || flag == QueryFlagDseWithContinuousPagingOptions) ==> result == (self == ProtocolVersionDse1 || self == ProtocolVersionDse2)
+
+//@ func (ProtocolVersion).SupportsCompression
+//@   prop C19
+//@   ensures snappy: declared(self) && compression == CompressionSnappy ==> result == (self != ProtocolVersion5)
+//@   ensures others: compression == CompressionNone || compression == CompressionLz4 ==> result
+//@   ensures unknown: !declared(compression) ==> !result
+
+//@ func (ProtocolVersion).SupportsSchemaChangeTarget
+//@   prop C19
+//@   ensures base: target == SchemaChangeTargetKeyspace || target == SchemaChangeTargetTable ==> result
+//@   ensures type: declared(self) && target == SchemaChangeTargetType ==> result == (self != ProtocolVersion2)
+//@   ensures fn: declared(self) && (target == SchemaChangeTargetFunction || target == SchemaChangeTargetAggregate) ==> result == (self != ProtocolVersion2 && self != ProtocolVersion3)
+//@   ensures unknown: !declared(target) ==> !result
+
+//@ func (ProtocolVersion).SupportsTopologyChangeType
+//@   prop C19
+//@   ensures base: t == TopologyChangeTypeNewNode || t == TopologyChangeTypeRemovedNode ==> result
+//@   ensures moved: declared(self) && t == TopologyChangeTypeMovedNode ==> result == (self != ProtocolVersion2)
+//@   ensures unknown: !declared(t) ==> !result
+
+//@ func (ProtocolVersion).SupportsDseRevisionType
+//@   prop C19
+//@   ensures cancel: declared(self) && t == DseRevisionTypeCancelContinuousPaging ==> result == (self == ProtocolVersionDse1 || self == ProtocolVersionDse2)
+//@   ensures more: declared(self) && t == DseRevisionTypeMoreContinuousPages ==> result == (self == ProtocolVersionDse2)
+//@   ensures unknown: !declared(t) ==> !result
+
+//@ func (ProtocolVersion).IsDse
+//@   prop C19
+//@   ensures table: result == (self == ProtocolVersionDse1 || self == ProtocolVersionDse2)
+
+//@ func (ProtocolVersion).IsOss
+//@   prop C19
+//@   ensures table: result == (declared(self) && self != ProtocolVersionDse1 && self != ProtocolVersionDse2)
